@@ -166,6 +166,14 @@ class ConcreteEngine:
         return int(m) == round_q(mode, Fraction(int(x), int(y)))
 
     @staticmethod
+    def hash_of(obj):
+        return (hash(obj), ())
+
+    @staticmethod
+    def hash_equal(ha, hb):
+        return ha[0] == hb[0]
+
+    @staticmethod
     def value_of(k):
         return int(k)
 
